@@ -56,8 +56,9 @@ type cthread struct {
 }
 
 type sched struct {
-	ev  chan event
-	thr []*cthread
+	ev   chan event
+	thr  []*cthread
+	self int64 // goroutine id of the scheduler
 }
 
 func (s *sched) park(tid int, phase, call string, key int, val string) {
@@ -76,13 +77,20 @@ func curGid() int64 {
 	return id
 }
 
-func goroutineStates() map[int64]string {
-	buf := make([]byte, 1<<20)
+type gstate struct {
+	state string
+	frame string // top frame
+}
+
+var gblockRe = regexp.MustCompile(`(?m)^goroutine (\d+) \[([^\],]+)[^\]]*\]:\n([^\n]*)`)
+
+func goroutineStates() map[int64]gstate {
+	buf := make([]byte, 4<<20)
 	n := runtime.Stack(buf, true)
-	out := map[int64]string{}
-	for _, m := range gidRe.FindAllSubmatch(buf[:n], -1) {
+	out := map[int64]gstate{}
+	for _, m := range gblockRe.FindAllSubmatch(buf[:n], -1) {
 		id, _ := strconv.ParseInt(string(m[1]), 10, 64)
-		out[id] = string(m[2])
+		out[id] = gstate{state: string(m[2]), frame: string(m[3])}
 	}
 	return out
 }
@@ -93,6 +101,26 @@ func isMutexWait(state string) bool {
 		return true
 	}
 	return false
+}
+
+// allWaiting: in this snapshot no goroutine other than the scheduler's own can
+// make progress by itself (helper goroutines of the implementation included:
+// the key-enumeration producer, populate's consumer, the initial build).
+func allWaiting(states map[int64]gstate, self int64) bool {
+	for id, g := range states {
+		if id == self {
+			continue
+		}
+		switch g.state {
+		case "running", "runnable", "sleep", "preempted", "copystack", "GC assist wait", "GC assist marking":
+			return false
+		case "syscall":
+			if !strings.HasPrefix(g.frame, "os/signal.") {
+				return false
+			}
+		}
+	}
+	return true
 }
 
 func (s *sched) drain() {
@@ -112,58 +140,42 @@ func (s *sched) drain() {
 	}
 }
 
-// settle waits until every thread is parked, idle, or blocked on a mutex.
-// Parked and idle threads are inert by construction (they wait for the
-// scheduler); a thread is "blocked" only if, in ONE stack snapshot, it and every
-// other not-yet-reported thread is waiting for a mutex — then nothing can move
-// until the scheduler acts.
+// settle waits until nothing can move without the scheduler: no event is
+// pending and, in ONE stack snapshot (taken with the world stopped), every
+// goroutine of the process except the scheduler's is waiting.  Parked and idle
+// threads wait for the scheduler; a thread that has not reported is then
+// "blocked" and must be waiting for a mutex.
 func (s *sched) settle(t *testing.T) {
-	deadline := time.Now().Add(20 * time.Second)
+	deadline := time.Now().Add(180 * time.Second)
 	for spins := 0; ; spins++ {
 		s.drain()
-		var running []*cthread
-		for _, th := range s.thr {
-			th.isBlkd = false
-			if th.state == "running" {
-				running = append(running, th)
-			}
-		}
-		if len(running) == 0 {
-			return
-		}
-		if spins > 2 {
-			states := goroutineStates()
-			all := true
-			for _, th := range running {
-				if th.gid == 0 || !isMutexWait(states[th.gid]) {
-					all = false
-				}
-			}
-			if all {
-				// nothing arrived since the snapshot?
-				s.drain()
-				still := true
-				for _, th := range running {
-					if th.state != "running" {
-						still = false
+		states := goroutineStates()
+		if allWaiting(states, s.self) {
+			s.drain() // events sent before the snapshot
+			if len(s.ev) == 0 {
+				ok := true
+				for _, th := range s.thr {
+					th.isBlkd = false
+					if th.state == "running" {
+						if th.gid != 0 && isMutexWait(states[th.gid].state) {
+							th.isBlkd = true
+						} else {
+							ok = false
+						}
 					}
 				}
-				if still {
-					for _, th := range running {
-						th.isBlkd = true
-					}
+				if ok {
 					return
 				}
-				continue
 			}
 		}
 		if time.Now().After(deadline) {
 			t.Fatalf("scheduler: threads did not settle")
 		}
-		if spins < 50 {
+		if spins < 20 {
 			runtime.Gosched()
 		} else {
-			time.Sleep(20 * time.Microsecond)
+			time.Sleep(50 * time.Microsecond)
 		}
 	}
 }
@@ -215,7 +227,7 @@ type concResult struct {
 
 func runConc(t *testing.T, u *universe, c concCfg, progs [][]sop, choose chooser) concResult {
 	ctx := context.Background()
-	sc := &sched{ev: make(chan event, 256)}
+	sc := &sched{ev: make(chan event, 256), self: curGid()}
 	base := u.baseStore(seqCfg{WT: true, NoPfx: true, Viewer: c.Viewer})
 	for _, k := range c.Init {
 		if err := base.bs.Put(ctx, u.block(k, 0)); err != nil {
@@ -517,7 +529,7 @@ func runConcurrent(t *testing.T, e *vh.Env, cs *vh.Cases, st *vh.Stats) {
 		{concCfg{Bloom: 1, Hashes: 3, Init: []int{0}}, [][]sop{{{Kind: "rebuild"}}, {{Kind: "get", K: 0}, {Kind: "delete", K: 0}}}},
 		{concCfg{TQ: 8, Bloom: 1, Hashes: 3}, [][]sop{{{Kind: "put", K: 0}}, {{Kind: "rebuild"}}}},
 	}
-	budget := e.Pick(150, 4000)
+	budget := e.Pick(150, 1500)
 	for i, sm := range small {
 		d := &dfs{}
 		for k := 0; k < budget; k++ {
@@ -531,7 +543,7 @@ func runConcurrent(t *testing.T, e *vh.Env, cs *vh.Cases, st *vh.Stats) {
 		}
 	}
 	// seeded schedules of random programs: 2-3 goroutines x <= 4 calls over 2-3 keys
-	nrand := e.Pick(500, 15000)
+	nrand := e.Pick(500, 8000)
 	for i := 0; i < nrand; i++ {
 		c := concCfg{Viewer: e.Rng.Intn(2) == 0}
 		switch e.Rng.Intn(5) {
@@ -608,7 +620,7 @@ func stressToctou(t *testing.T, e *vh.Env, st *vh.Stats) {
 			calls.Add(n)
 		}()
 	}
-	rebuilds := e.Pick(20000, 200000)
+	rebuilds := e.Pick(20000, 100000)
 	for i := 0; i < rebuilds; i++ {
 		if err := bcs.Rebuild(ctx); err != nil {
 			t.Fatal(err)
